@@ -84,6 +84,7 @@ func (c *Collection) writeWithMeta(key string, body []byte, xattrs []byte, oldCa
 		return err
 	}
 	if e != nil {
+		verifPoint("meta.beforePost", c.bucket.name)
 		c.postNewEvent(e)
 	}
 	return nil
